@@ -9,6 +9,8 @@ import BigDec.Driver.C06
 import BigDec.Driver.C07
 import BigDec.Driver.C08
 import BigDec.Driver.C09
+import BigDec.Driver.C10
+import BigDec.Driver.C11
 import BigDec.Driver.C15
 import BigDec.Driver.C19
 import BigDec.Driver.C18
@@ -30,6 +32,8 @@ def dispatch (prop op : String) (args : List String) (impl : String) : Verdict :
   | "C07" => Driver.C07.handle op args impl
   | "C08" => Driver.C08.handle op args impl
   | "C09" => Driver.C09.handle op args impl
+  | "C10" => Driver.C10.handle op args impl
+  | "C11" => Driver.C11.handle op args impl
   | "C15" => Driver.C15.handle op args impl
   | "C19" => Driver.C19.handle op args impl
   | "C18" => Driver.C18.handle op args impl
